@@ -184,21 +184,26 @@ def coq_build(log):
         lock.close()
 
 
-GATE_RE = r'Admitted|admit\.|\bAxiom\b|\bParameter\b|\bConjecture\b|Unset Guard|bypass_check|type-in-type|\bHypothesis\b|\bVariable\b|Admit Obligations'
+GATE_RE = r'Admitted|admit\.|\bAxiom\b|\bAxioms\b|\bParameter\b|\bParameters\b|\bConjecture\b|Unset Guard|Guard Checking|Positivity Checking|Universe Checking|bypass_check|type-in-type|impredicative-set|Admit Obligations'
+SECTION_ONLY_RE = r'^\s*(Variable|Variables|Hypothesis|Hypotheses|Context)\b'
 
 
 def coq_gate():
-    """no axioms / admits / kernel switches anywhere in the development"""
+    """no axioms / admits / kernel switches anywhere in the development; Variable / Hypothesis only inside a Section"""
     bad = []
     for root, _, files in os.walk(THEORIES):
-        for f in files:
+        for f in sorted(files):
             if f.endswith(".v"):
                 p = os.path.join(root, f)
-                for i, line in enumerate(open(p), 1):
-                    code = re.sub(r'\(\*.*?\*\)', '', line)
-                    if re.search(GATE_RE, code):
-                        # Section variables are allowed inside sections only; we use none.
-                        bad.append("%s:%d: %s" % (p, i, line.strip()))
+                text = re.sub(r'\(\*.*?\*\)', lambda m: re.sub(r'[^\n]', ' ', m.group(0)), open(p).read(), flags=re.S)
+                depth = 0
+                for i, code in enumerate(text.split("\n"), 1):
+                    if re.match(r'^\s*Section\s+\w+\s*\.', code):
+                        depth += 1
+                    elif re.match(r'^\s*End\s+\w+\s*\.', code) and depth > 0:
+                        depth -= 1
+                    if re.search(GATE_RE, code) or (depth == 0 and re.match(SECTION_ONLY_RE, code)):
+                        bad.append("%s:%d: %s" % (p, i, code.strip()))
     return bad
 
 
